@@ -2808,3 +2808,87 @@ fire("c17-parsed-list-hash-memoized", ["C17"], "pymbolic/parser.py",
      "    def __hash__(self) -> int:  # type: ignore[override]\n        result = hash(type(self).__name__)",
      "    @pytools.memoize_method\n    def __hash__(self) -> int:  # type: ignore[override]\n        result = hash(type(self).__name__)",
      "S/pickle/memoized-hash/FinalizedList")
+fire("c19-fft-twiddle-ignores-sign", ["C19"], "pymbolic/algorithm.py",
+     "                    sign*-2j*pi*n1/(N1*N2)",
+     "                    -2j*pi*n1/(N1*N2)",
+     "P/fft/equals-the-dft-definition")
+fire("c19-fft-butterfly-wrong-stride", ["C19"], "pymbolic/algorithm.py",
+     "                fft(x[n1::N1], sign,",
+     "                fft(x[n1::N2], sign,",
+     "P/fft/equals-the-dft-definition")
+fire("c19-ifft-forgets-sign", ["C19"], "pymbolic/algorithm.py",
+     "    return (1/len(x))*fft(x, sign=-1, wrap_intermediate=wrap_intermediate,",
+     "    return (1/len(x))*fft(x, sign=1, wrap_intermediate=wrap_intermediate,",
+     "P/fft/equals-the-dft-definition")
+fire("c19-integer-power-starts-from-x", ["C19"], "pymbolic/algorithm.py",
+     "    aux = one\n\n    while n > 0:",
+     "    aux = x\n    n -= 1\n\n    while n > 0:",
+     "P/integer_power/value")
+fire("c19-integer-power-inplace-again", ["C19"], "pymbolic/algorithm.py",
+     "            aux = aux * x\n",
+     "            aux *= x\n",
+     "T/integer_power/arguments-not-updated-in-place")
+fire("c19-integer-power-no-squaring", ["C19"], "pymbolic/algorithm.py",
+     "        x = x * x\n        n //= 2",
+     "        n //= 2",
+     "P/integer_power/value")
+fire("c19-euclid-cofactors-swapped", ["C19"], "pymbolic/algorithm.py",
+     "    return q, Q[0], Q[1]",
+     "    return q, Q[1], Q[0]",
+     "P/extended_euclidean/bezout")
+fire("c19-euclid-update-uses-wrong-row", ["C19"], "pymbolic/algorithm.py",
+     "        T = Q[0] - quot*R[0], Q[1] - quot*R[1]  # noqa",
+     "        T = Q[0] - quot*R[0], Q[1] - quot*R[0]  # noqa",
+     "P/extended_euclidean/bezout")
+fire("c19-horner-drops-last-factor", ["C19"], "pymbolic/mapper/evaluator.py",
+     "            else:\n                next_exp = 0\n            result = (result+self.rec(coeff))",
+     "            else:\n                next_exp = exp\n            result = (result+self.rec(coeff))",
+     "P/EvaluationMapper.map_polynomial/value")
+fire("c19-horner-coefficient-unevaluated", ["C19"], "pymbolic/mapper/evaluator.py",
+     "            result = (result+self.rec(coeff))*ev_base**(exp-next_exp)",
+     "            result = (result+coeff)*ev_base**(exp-next_exp)",
+     "P/EvaluationMapper.map_polynomial/value")
+fire("c19-polynomial-mul-skips-merge", ["C19"], "pymbolic/polynomial.py",
+     "        return Polynomial(self.Base, tuple(_sort_uniq(result)))",
+     "        return Polynomial(self.Base, tuple(sorted(result, key=lambda t: t[0])))",
+     "P/Polynomial/operators-homomorphic")
+fire("c19-polynomial-keeps-zero-coefficients", ["C19"], "pymbolic/polynomial.py",
+     "            object.__setattr__(self, \"Data\", tuple(\n"
+     "                (exp, coeff) for exp, coeff in data if coeff))",
+     "            object.__setattr__(self, \"Data\", tuple(data))",
+     "P/Polynomial/operators-homomorphic")
+fire("c19-polynomial-add-takes-wrong-coefficient", ["C19"], "pymbolic/polynomial.py",
+     "                result.append((exp_other, other.Data[i_other][1]))\n                i_other += 1\n            elif",
+     "                result.append((exp_other, self.Data[i_self][1]))\n                i_other += 1\n            elif",
+     "P/Polynomial/operators-homomorphic")
+fire("c13-compiled-horner-drops-last-factor", ["C13"], "pymbolic/compiler.py",
+     "            else:\n                next_exp = 0\n            result = \"({}+{}){}\"",
+     "            else:\n                next_exp = exp\n            result = \"({}+{}){}\"",
+     "P/CompileMapper.map_polynomial/text-value")
+fire("c13-compiled-zero-polynomial-empty", ["C13"], "pymbolic/compiler.py",
+     "        if not expr.data:\n            # the zero polynomial (e.g. p - p): no terms to write down\n            return \"0\"\n",
+     "",
+     "P/CompileMapper.map_polynomial/text-value")
+silent("c19-silent-integer-power-shift", ["C19"], "pymbolic/algorithm.py",
+       "        n //= 2", "        n >>= 1")
+silent("c19-silent-integer-power-mod-parity", ["C19"], "pymbolic/algorithm.py",
+       "        if n & 1:", "        if n % 2:")
+silent("c19-silent-euclid-tuple-unpacked", ["C19"], "pymbolic/algorithm.py",
+       "        T = Q[0] - quot*R[0], Q[1] - quot*R[1]  # noqa",
+       "        T = (Q[0] - R[0]*quot, Q[1] - R[1]*quot)  # noqa")
+fire("c19-sym-fft-wraps-twice-wrong-vector", ["C19"], "pymbolic/algorithm.py",
+     "            fft(wrap_intermediate(x), sign=sign,\n                wrap_intermediate=wrap_intermediate))",
+     "            fft(wrap_intermediate(x[::-1]), sign=sign,\n                wrap_intermediate=wrap_intermediate))",
+     "P/fft/equals-the-dft-definition")
+fire("c19-euclid-step-not-unimodular", ["C19"], "pymbolic/algorithm.py",
+     "        q, r = r, t\n",
+     "        q, r = r, 2*t\n",
+     "P/extended_euclidean/")
+fire("c19-euclid-returns-penultimate-remainder", ["C19"], "pymbolic/algorithm.py",
+     "    return q, Q[0], Q[1]",
+     "    return q*q, Q[0]*q, Q[1]*q",
+     "P/extended_euclidean/greatest")
+fire("c19-lcm-multiplies-by-gcd", ["C19"], "pymbolic/algorithm.py",
+     "    return abs(q*r)//gcd(q, r)",
+     "    return abs(q*r)*gcd(q, r)",
+     "P/lcm/consistent-with-gcd")
